@@ -18,7 +18,8 @@ import (
 // handlerInfo describes one of the error handlers of package url.
 type handlerInfo struct {
 	Fn       *ssa.Function
-	UrlIdx   int // parameter index of *Url
+	UrlIdx   int // parameter index of *Url — or, when UrlField ≥ 0, of the object that carries it (`r reporter` with r.url)
+	UrlField int // -1, or the index of the *Url field of the carrier parameter
 	TypeIdx  int // parameter index of errors.ErrorType
 	FailIdx  int // parameter index of the failure flag
 	DescrIdx int // -1 if none
@@ -41,6 +42,72 @@ func (h *handlerInfo) body() (fn *ssa.Function, url, e, fail ssa.Value) {
 		return h.Core, h.Core.Params[h.CoreUrlIdx], h.Core.Params[h.CoreErrIdx], h.Core.Params[h.CoreFailIdx]
 	}
 	return h.Fn, h.Fn.Params[h.UrlIdx], h.CtorCall, h.Fn.Params[h.FailIdx]
+}
+
+// isURL: v (brought into the handler's own frame by resolve) is the URL the handler reports into — its *Url parameter,
+// or the *Url field of the object that carries it, read through a pointer, a struct value or the spilled copy of one.
+func (h *handlerInfo) isURL(v ssa.Value, resolve func(ssa.Value) ssa.Value) bool {
+	carrier := ssa.Value(h.Fn.Params[h.UrlIdx])
+	v = resolve(v)
+	if h.UrlField < 0 {
+		return v == carrier
+	}
+	var isCarrier func(x ssa.Value, depth int) bool
+	isCarrier = func(x ssa.Value, depth int) bool {
+		if depth > 6 {
+			return false
+		}
+		x = resolve(x)
+		if x == carrier {
+			return true
+		}
+		switch y := x.(type) {
+		case *ssa.UnOp:
+			if y.Op == token.MUL {
+				return isCarrier(y.X, depth+1)
+			}
+		case *ssa.Alloc:
+			// a spilled copy: exactly one store, of the carrier
+			var val ssa.Value
+			n := 0
+			for _, r := range *y.Referrers() {
+				if st, ok := r.(*ssa.Store); ok && st.Addr == ssa.Value(y) {
+					val = st.Val
+					n++
+				}
+			}
+			return n == 1 && isCarrier(val, depth+1)
+		}
+		return false
+	}
+	switch x := v.(type) {
+	case *ssa.UnOp:
+		if x.Op == token.MUL {
+			if fa, ok := x.X.(*ssa.FieldAddr); ok && fa.Field == h.UrlField && namedOf(fa.X.Type()) == namedOf(carrier.Type()) {
+				return isCarrier(fa.X, 0)
+			}
+		}
+	case *ssa.Field:
+		if x.Field == h.UrlField && namedOf(x.X.Type()) == namedOf(carrier.Type()) {
+			return isCarrier(x.X, 0)
+		}
+	}
+	return false
+}
+
+func typePkgPath(t types.Type) string {
+	for {
+		switch x := t.(type) {
+		case *types.Pointer:
+			t = x.Elem()
+			continue
+		case *types.Named:
+			if x.Obj().Pkg() != nil {
+				return x.Obj().Pkg().Path()
+			}
+		}
+		return ""
+	}
 }
 
 // handlerSite is one call of a handler.
@@ -113,11 +180,12 @@ func buildErrModel(c *Ctx) *errModel {
 					if callee == nil || !m.Ctors[callee] {
 						continue
 					}
-					h := &handlerInfo{Fn: f, UrlIdx: -1, TypeIdx: -1, FailIdx: -1, DescrIdx: -1, CauseIdx: -1, Ctor: callee, CtorCall: call}
+					h := &handlerInfo{Fn: f, UrlIdx: -1, UrlField: -1, TypeIdx: -1, FailIdx: -1, DescrIdx: -1, CauseIdx: -1, Ctor: callee, CtorCall: call}
 					for i, p := range f.Params {
 						switch {
 						case namedOf(p.Type()) == "Url":
 							h.UrlIdx = i
+							h.UrlField = -1
 						case namedOf(p.Type()) == "ErrorType":
 							h.TypeIdx = i
 						case types.Identical(p.Type().Underlying(), types.Typ[types.Bool]):
@@ -126,6 +194,24 @@ func buildErrModel(c *Ctx) *errModel {
 							h.DescrIdx = i
 						case types.Identical(p.Type(), types.Universe.Lookup("error").Type()):
 							h.CauseIdx = i
+						}
+					}
+					if h.UrlIdx < 0 {
+						// the URL may travel in an object of the module that the handler is a method of or is handed:
+						// a struct (or pointer to one) with exactly one field of type *Url
+						for i, p := range f.Params {
+							if st, ok := structOf(p.Type()); ok && strings.HasPrefix(typePkgPath(p.Type()), core.ModPath) {
+								fi, n := -1, 0
+								for k := 0; k < st.NumFields(); k++ {
+									if _, isPtr := st.Field(k).Type().(*types.Pointer); isPtr && namedOf(st.Field(k).Type()) == "Url" {
+										fi = k
+										n++
+									}
+								}
+								if n == 1 && h.UrlIdx < 0 {
+									h.UrlIdx, h.UrlField = i, fi
+								}
+							}
 						}
 					}
 					if h.UrlIdx < 0 || h.TypeIdx < 0 || h.FailIdx < 0 {
@@ -178,7 +264,7 @@ func buildErrModel(c *Ctx) *errModel {
 					return -1
 				}
 				args := hc.Common().Args
-				w := &handlerInfo{Fn: g, UrlIdx: idxOf(args[h.UrlIdx]), TypeIdx: idxOf(args[h.TypeIdx]), FailIdx: idxOf(args[h.FailIdx]), DescrIdx: -1, CauseIdx: -1, Ctor: h.Ctor, CtorCall: h.CtorCall, Forward: h, ForwardCall: hc}
+				w := &handlerInfo{Fn: g, UrlField: h.UrlField, UrlIdx: idxOf(args[h.UrlIdx]), TypeIdx: idxOf(args[h.TypeIdx]), FailIdx: idxOf(args[h.FailIdx]), DescrIdx: -1, CauseIdx: -1, Ctor: h.Ctor, CtorCall: h.CtorCall, Forward: h, ForwardCall: hc}
 				if w.UrlIdx < 0 || w.TypeIdx < 0 || w.FailIdx < 0 {
 					continue
 				}
@@ -597,7 +683,7 @@ func init() {
 					case cp.Name() == "url":
 						ok := false
 						if u, isU := arg.(*ssa.UnOp); isU && u.Op == token.MUL {
-							if fa, isF := u.X.(*ssa.FieldAddr); isF && fa.X == ssa.Value(h.Fn.Params[h.UrlIdx]) && fieldElem(fa.X.Type(), fa.Field) == "Url:inputUrl" {
+							if fa, isF := u.X.(*ssa.FieldAddr); isF && h.isURL(fa.X, func(v ssa.Value) ssa.Value { return v }) && fieldElem(fa.X.Type(), fa.Field) == "Url:inputUrl" {
 								ok = true
 							}
 						}
@@ -616,7 +702,7 @@ func init() {
 
 				// (2) truth table, read off the handler with its unexported helpers inlined (the decision may be spread over a
 				// shared core, a recording helper and a predicate on the options)
-				urlVal, eVal, failVal := ssa.Value(h.Fn.Params[h.UrlIdx]), ssa.Value(h.CtorCall), ssa.Value(h.Fn.Params[h.FailIdx])
+				eVal, failVal := ssa.Value(h.CtorCall), ssa.Value(h.Fn.Params[h.FailIdx])
 				fg := flatten(c, h.Fn, func(g *ssa.Function) bool { return m.Cores[g] }, 3)
 				paths, ok := enumFlatPaths(fg, 128)
 				if !ok {
@@ -697,7 +783,7 @@ func init() {
 					for _, n := range p.Nodes {
 						for _, ins := range n.Instrs {
 							if st, isS := ins.(*ssa.Store); isS {
-								if fa, isF := st.Addr.(*ssa.FieldAddr); isF && fieldElem(fa.X.Type(), fa.Field) == "Url:validationErrors" && p.Resolve(n, fa.X) == urlVal {
+								if fa, isF := st.Addr.(*ssa.FieldAddr); isF && fieldElem(fa.X.Type(), fa.Field) == "Url:validationErrors" && h.isURL(fa.X, func(nn *fnode) func(ssa.Value) ssa.Value { return func(v ssa.Value) ssa.Value { return p.Resolve(nn, v) } }(n)) {
 									// value must be append(load same field, e)
 									if call, isCall := st.Val.(*ssa.Call); isCall {
 										if bi, isB := call.Common().Value.(*ssa.Builtin); isB && bi.Name() == "append" {
@@ -732,9 +818,13 @@ func init() {
 				sum := e.Sum(h.Fn)
 				var extra []string
 				for _, mu := range sum.Mut.sorted() {
-					if !strings.HasPrefix(mu, fmt.Sprintf("P%d.Url:validationErrors", h.UrlIdx)) {
-						extra = append(extra, mu)
+					if strings.HasPrefix(mu, fmt.Sprintf("P%d.Url:validationErrors", h.UrlIdx)) {
+						continue
 					}
+					if h.UrlField >= 0 && strings.HasPrefix(mu, fmt.Sprintf("P%d.%s.Url:validationErrors", h.UrlIdx, fieldElem(h.Fn.Params[h.UrlIdx].Type(), h.UrlField))) {
+						continue
+					}
+					extra = append(extra, mu)
 				}
 				s.Check(len(extra) == 0, key+"/effect", pos, "the only memory written is u.validationErrors", "handler also writes "+strings.Join(extra, ", "))
 			}
